@@ -5,10 +5,33 @@ def H(cmd, oracle, quick, thorough, **kw):
     d.update(kw)
     return d
 
+MONAD_H = [H('monad_' + p, 'oracle_monad', 3000, 150000, oracle_args=[p], spec_level=True) for p in ('try', 'option', 'either', 'statet')]
+TRYOPT_H = H('tryopt', 'oracle_tryopt', 4000, 200000, spec_level=True)
+
 CHECKS = {
+    'C01': dict(
+        spec=['FpVerif.Spec.C01', 'FpVerif.Spec.C01Inst'],
+        harnesses=MONAD_H + [TRYOPT_H],
+        level='proof',
+        modelled='X_monad.go + X_traverse.go of option/try/either/statet (one generic model of the generator template, '
+                 'instantiated four times; every arity through operand lists); FlatMap/Pure/FoldM and the hand-written cores of '
+                 'try_op.go, option_op.go, either_op.go; methods of fp.Try/fp.Option/fp.Either. Iterator/List monads: C12; lazy.Eval: C16. '
+                 'Not modelled: MonadChainN/ApplicativeFunctorN builders, SeqT/OptionT transformer functions, fn0/fn1.',
+        assumptions=['Go evaluates call arguments before the call and left to right; every M-typed argument of the generated family is a '
+                     'variable or a nested call used exactly once (checked by the correspondence, not proved)',
+                     'iterators handed to FoldM/Traverse are viewed as the finite list they yield (pull behaviour: C12/C20)'],
+    ),
+    'C02': dict(
+        spec=['FpVerif.Spec.C02'],
+        harnesses=MONAD_H + [TRYOPT_H, H('statet', 'oracle_statet', 3000, 100000, spec_level=True)],
+        level='proof',
+        modelled='as C01; in addition try.Of/Call/CallUnit (recover -> tryCatch), Recover*/Or*/OrElse* of fp.Try/fp.Option/fp.StateT. '
+                 'future.Apply/Apply2: C06.',
+        assumptions=['panic values are compared by their canonical rendering', 'debug.Stack() content of try.panicError is not modelled'],
+    ),
     'C17': dict(
         spec=['FpVerif.Spec.C17'],
-        harnesses=[H('statet', 'oracle_statet', 4000, 200000)],
+        harnesses=[H('statet', 'oracle_statet', 4000, 200000, spec_level=True)],
         level='proof',
         modelled='state.go (all StateT methods), statet/statet_op.go (all functions); state_monad.go/state_traverse.go via C01',
         assumptions=['iterators handed to FoldM are viewed as the finite list they yield',
